@@ -69,7 +69,11 @@ def model_line(c):
     if t == 'carryin': return '\t'.join(['carryin', o('tob'), b('force')] + c['targets'])
     if t == 'recheck': return '\t'.join(['recheck', o('method'), b('force')] + c['targets'])
     if t == 'remove': return '\t'.join(['remove', b('all_versions'), b('force')] + c['targets'])
-    if t == 'untrack': return '\t'.join(['untrack'] + c['targets'])
+    if t == 'untrack':
+        if c.get('restore_versions'):
+            bl = c.get('block') or []
+            return '\t'.join(['untrackr', str(len(bl))] + [str(x) for b in bl for x in b] + c['targets'])
+        return '\t'.join(['untrack'] + c['targets'])
     if t == 'copy': return '\t'.join(['copy', o('method'), b('no_recheck'), b('force'), c['src'], c['dst']])
     if t == 'move': return '\t'.join(['move', o('method'), b('no_recheck'), c['src'], c['dst']])
     raise ValueError(t)
@@ -231,6 +235,24 @@ def abstraction(obs: Obs, table: Table) -> str:
 
 # ------------------------------------------------------------------------------------------------ runner
 
+def restore_name(path, rel_addr):
+    """file name `untrack --restore-versions` gives version `rel_addr` of `path` (relative to the restore directory):
+    <parent>/<stem>-<first 15 characters of the cache path, '/' -> '-'>.<extension>"""
+    parent, base = os.path.split(path)
+    stem, ext = os.path.splitext(base)
+    return os.path.join(parent, f"{stem}-{rel_addr[:15].replace('/', '-')}.{ext[1:]}")
+
+
+def restore_items(pre):
+    """[(path, version index, digest, cache rel path)] for every recorded version of every tracked path"""
+    from xvcbin import cache_rel
+    out = []
+    for p, r in pre.recs.items():
+        for k, d in enumerate(r['hist']):
+            out.append((p, k, d, cache_rel(d['algorithm'], ''.join(f'{b:02x}' for b in d['digest']), ext_of(p))))
+    return out
+
+
 class Runner:
     def __init__(self, chk, xvc, model_bin):
         self.chk, self.xvc, self.model_bin = chk, xvc, model_bin
@@ -245,7 +267,18 @@ class Runner:
         sb.init()
         return sb
 
-    def exec_cmd(self, sb, cfg, c):
+    def exec_cmd(self, sb, cfg, c, pre=None):
+        if c['op'] == 'untrack' and c.get('restore_versions') and c.get('block') and pre is not None:
+            # fault injection for the copy of single versions: a directory sits at the destination name
+            rdir = os.path.normpath(os.path.join(sb.root, c['restore_versions']))
+            items = restore_items(pre)
+            for bp, bk in c['block']:
+                for p, k, d, rel in items:
+                    if p == bp and k == bk:
+                        try:
+                            os.makedirs(os.path.join(rdir, restore_name(p, rel)), exist_ok=True)
+                        except OSError:
+                            pass              # e.g. ENAMETOOLONG: the copy fails for the same reason
         if c['op'] == 'write':
             sb.write(c['path'], c['bytes']); return 0, '', ''
         if c['op'] == 'delete':
@@ -289,10 +322,30 @@ class Runner:
         for i, c in enumerate(history):
             if c['op'] == 'write':
                 table.add(c['bytes'])
-            rc, out, err = self.exec_cmd(sb, cfg, c)
+            rc, out, err = self.exec_cmd(sb, cfg, c, pre)
             self.restamp(sb, stamps)
             post = Obs(sb)
             st = {'i': i, 'cmd': c, 'rc': rc, 'out': out[-400:], 'err': err[-600:], 'pre': pre, 'post': post, 'abs': abstraction(post, table)}
+            if c['op'] == 'untrack' and c.get('restore_versions'):
+                # what was written out: {(path, version index): bytes}; anything else under the directory by its name
+                rdir = os.path.normpath(os.path.join(sb.root, c['restore_versions']))
+                names = {}
+                for p, k, d, rel in restore_items(pre):
+                    names.setdefault(restore_name(p, rel), []).append((p, k, d))      # a version committed twice has one name
+                written, toks = {}, set()
+                for dp, dn, fn in os.walk(rdir):
+                    for f in fn:
+                        rel = os.path.relpath(os.path.join(dp, f), rdir)
+                        with open(os.path.join(dp, f), 'rb') as fh:
+                            b = fh.read()
+                        if rel in names:
+                            for p, k, d in names[rel]:
+                                written[(p, k)] = b
+                                toks.add(f"{p}@{dig_token(table, d)}={fp(b)}")
+                        else:
+                            toks.add(f"?{rel}={fp(b)}")
+                st['restored'] = written
+                st['abs'] += f" restored={{{';'.join(sorted(toks))}}}"
             steps.append(st)
             if hooks:
                 for h in hooks:
@@ -335,7 +388,7 @@ class Runner:
 def split_abs(s):
     """'rc=ok ws={..} cache={..} rec={..}' -> dict of sets"""
     out = {}
-    for key in ('ws', 'cache', 'rec'):
+    for key in ('ws', 'cache', 'rec', 'restored'):
         i = s.find(key + '={')
         if i < 0:
             out[key] = None; continue
@@ -346,7 +399,7 @@ def split_abs(s):
             elif s[k] == '}': depth -= 1
             k += 1
         body = s[j:k - 1]
-        out[key] = sorted(x for x in body.split(';') if x)
+        out[key] = sorted({x for x in body.split(';') if x})
     m = s.split(' ')[0]
     out['rc'] = m[3:] if m.startswith('rc=') else None
     return out
@@ -360,8 +413,10 @@ def compare_step(step, model_line_out):
         return f"exit class: implementation rc={step['rc']} model rc={m['rc']}"
     if real_panic:
         return None            # after a panic the partially written state is not compared
-    for key in ('rec', 'cache', 'ws'):
+    for key in ('rec', 'cache', 'ws', 'restored'):
         if a[key] != m[key]:
+            if a[key] is None or m[key] is None:
+                return f'{key}: implementation {a[key]} model {m[key]}'
             da = [x for x in a[key] if x not in m[key]]; dm = [x for x in m[key] if x not in a[key]]
             return f'{key}: implementation-only {da} model-only {dm}'
     return None
@@ -438,8 +493,16 @@ def gen_history(rng, profile='main', maxlen=12):
         elif r < 0.85:
             tt = [t for t in ts if t in tracked][:2]
             if tt:
-                h.append({'op': 'untrack', 'targets': tt})
-                for t in tt: tracked.discard(t)
+                c = {'op': 'untrack', 'targets': tt}
+                if rng.random() < 0.5:
+                    # --restore-versions into a fresh directory outside the repository; sometimes the copy of one
+                    # version is made to fail (a directory sits at its destination name)
+                    c['restore_versions'] = f'../restored-{len(h)}'
+                    if rng.random() < 0.35:
+                        c['block'] = [[rng.choice(tt), rng.choice([0, 0, 1, 2])]]
+                h.append(c)
+                if not c.get('block'):
+                    for t in tt: tracked.discard(t)
         elif r < 0.93 and tracked:
             src = rng.choice(sorted(tracked))
             e = ext_of(src)
